@@ -6,8 +6,8 @@ from rules import thorough as TH
 RULE_TEXT = {
     "Q1": "one channel pair feeds the store's sender slot; its receiver is moved into exactly one closure that is started once; the receiver wrapper cannot be cloned or rebuilt",
     "Q2": "every crossbeam dequeue operation is the consumer wrapper's own recv or the non-blocking head-pop of the send wrapper; the consumer receives in its loop header",
-    "Q3": "every enqueue on the dispatch queue happens with the sender-slot lock held on all paths; the sender is never cloned out of the slot; every dispatch entry point reaches such a site",
-    "Q4": "the sender slot is emptied under its lock and the Exit marker is sent through the sender taken out of the slot (or under the lock)",
+    "Q3": "every enqueue on the dispatch queue happens with the sender-slot lock held on all paths; that lock is only ever acquired exclusively (no read() of an RwLock); the sender is never cloned out of the slot; every dispatch entry point reaches such a site",
+    "Q4": "the sender slot is emptied under its lock and the Exit marker is sent through the sender taken out of the slot (or under the lock); every path of close() that finds a sender takes it out, whatever happens to the Exit marker",
     "Q5": "every Ok path of a dispatch body performs exactly one synchronous enqueue of Action(param); no enqueue sits in a deferred closure",
     "Q6": "all callbacks of an action lie on the consumer's receive cycle of the reducer thread's synchronous call tree; none runs in a closure handed to a pool/thread",
     "D1": "dispatchers handed to hooks, effects and thunks wrap a clone of the store's own Arc",
@@ -44,11 +44,11 @@ RULE_TEXT = {
     "RG1": "reducers and middlewares are appended with push under their lock and never reordered or removed; the constructor stores the vectors it is given",
     "ST1": "every path through stop() closes the queue, empties the pool slot under its lock and joins the taken pool with no store lock held",
     "ST2": "with the sender slot empty every dispatch body returns Err(DispatchError) without enqueue or pool submission",
-    "ST3": "the receive loop continues only after an Action item and ends only on the Exit marker or disconnection",
+    "ST3": "the receive loop continues only after an Action item and ends only on the Exit marker or disconnection; the None it ends on means disconnection (blocking recv(), or Timeout/Empty told apart from Disconnected)",
     "ST4": "reducer/middleware/direct-subscriber call sites are reachable only from the reducer thread's loop; channeled on_notify only from its own thread",
     "ST5": "a second close finds the slot empty and performs no queue operation",
     "E1": "both answer arms push the returned effect (if any) onto one vector created per pass and returned with the chain result",
-    "E2": "the effect loop runs until the vector is empty, takes one effect per iteration and hands each variant's payload over exactly once",
+    "E2": "the effect loop runs until the vector is empty, takes one effect per iteration and hands each variant's payload over exactly once; every pass reaches the loop or a look at the vector made after the before_effect hooks",
     "E3": "effect payloads (boxed FnOnce) are called only inside closures submitted to the pool or handed to dispatch_task/thunk, with no store lock held",
     "E4": "the closure built for Effect::Action dispatches the captured action once through the dispatcher it is given",
     "E5": "dispatch_task/dispatch_thunk submit the task on every path; a None pool slot is acceptable only if stop() waits for the reducer loop before emptying the slot",
@@ -170,9 +170,9 @@ PROPS = {
                    r(M.mw_table, only=r"(flow|flags):before_dispatch|arm-present:before_dispatch|MW2:.*before_dispatch|count:before_dispatch"),
                    r(Q.q6_sequential_consumer, only=r"event-graph|receive events|NOTIFY"),
                    E.e6_reducer_never_enqueues, r(PI3_NOTIFY, name="PI3"),
-                   r(S.su2_unsubscribe, only=r"compares-element-with-own-subscriber|identity-test|removes-exactly-the-identical-element|floor"),
+                   r(S.su2_unsubscribe, only=r"compares-element-with-own-subscriber|identity-test|removes-exactly-the-identical-element|retain-under-list-lock|floor"),
                    M.n4_notify_phase_not_bypassed, S.cb1_callbacks_hold_no_reentrant_lock),
-        "explanation": "Static decision: one notify decision per reduced action from the last reducer's answer (N1,N2), one forward pass over a snapshot of the registration-ordered list (SU1,PI3) with that action and the chain's result state (N3,PI6), suppressed only by a before_dispatch DoneAction (MW table, MW2); nothing on the reducer thread between reduce and notify can block on or fail through the store's own queue (E6). Only the identical subscriber is removed by a handle (SU2); with a Dispatch answer and no veto every pass reaches the subscriber loop (N4); callbacks cannot block the reducer thread on its own locks (CB1).",
+        "explanation": "Static decision: one notify decision per reduced action from the last reducer's answer (N1,N2), one forward pass over a snapshot of the registration-ordered list (SU1,PI3) with that action and the chain's result state (N3,PI6), suppressed only by a before_dispatch DoneAction (MW table, MW2); nothing on the reducer thread between reduce and notify can block on or fail through the store's own queue (E6). Only the identical subscriber is removed by a handle, in one critical section of the list lock so that a concurrent registration is not overwritten (SU2); with a Dispatch answer and no veto every pass reaches the subscriber loop (N4); callbacks cannot block the reducer thread on its own locks (CB1).",
         "not_decided": ["chains mixing Dispatch and Keep beyond 'last decides'"],
     },
     "C04": {
@@ -180,24 +180,25 @@ PROPS = {
                    r(C.ch2_result_tells_enqueued, only=r"err-means-not-enqueued|ok-means-enqueued:BlockOnFull|floor"), r(_ch1_block, name="CH1"),
                    S.su3_shutdown_release, T.st1_stop_is_close_plus_join, T.st2_closed_means_err, T.st3_loop_exits,
                    T.st4_callbacks_live_in_the_loop, T.st5_idempotent, r(C.dr1_result_mapping, only=r"result-maps-Ok|result-ignored|one-enqueue-attempt|floor"),
-                   r(X.ch_channeled_release, name="R2"), S.lc3_release_under_list_lock),
-        "explanation": "Static decision: accepted actions are enqueued under the sender lock (Q3,CH2), close() empties the slot under that lock before Exit is enqueued (Q4), the loop ends only on Exit/disconnect and then releases every subscriber, which joins channeled threads after disconnecting them (ST3,SU3,R2), stop() = close + join of the pool on every path without holding a store lock (ST1), closed => Err without effect and Err only when nothing was enqueued (ST2,CH2,DR1), callbacks exist only inside the joined loop (ST4), second close/stop do nothing (ST5). The blocking arm cannot give up (CH1); every release runs under the list lock in its calling context (LC3).",
+                   r(X.ch_channeled_release, name="R2"), S.lc3_release_under_list_lock, E.e6_reducer_never_enqueues, r(X.ch_channeled, only=r"subscribed-defaults", name="R5")),
+        "explanation": "Static decision: accepted actions are enqueued under the sender lock (Q3,CH2), close() empties the slot under that lock before Exit is enqueued (Q4), the loop ends only on Exit/disconnect and then releases every subscriber, which joins channeled threads after disconnecting them (ST3,SU3,R2), stop() = close + join of the pool on every path without holding a store lock (ST1), closed => Err without effect and Err only when nothing was enqueued (ST2,CH2,DR1), callbacks exist only inside the joined loop (ST4), second close/stop do nothing (ST5). The blocking arm cannot give up (CH1); every release runs under the list lock in its calling context (LC3). The reducer thread never enqueues into (or fails through) its own queue, so a queued action cannot kill or block the loop before Exit (E6); subscribed() keeps its blocking default, so a flushed channeled subscriber has seen every notification (R5).",
         "not_decided": ["the 3 s timeout", "two racing shutdowns", "shutdown_join semantics (trusted)"],
     },
     "C05": {
         "rules": R(r(DL.lk0_blocking_acquisitions, only=r"StoreImpl\\.sender-slot|all-acquisitions|floor"), r(_ch1_block, name="CH1"), r(_ch2_block, name="CH2"), C.ch5_capacity, Q.q2_dequeue_sites,
                    B.b1_capacity_zero_rejected, Q.q5_synchronous_enqueue, Q.q9_dispatch_fails_only_when_closed,
                    Q.q3_enqueue_under_sender_lock,
-                   r(DL.l2_wait_for, only=r"consumer-needs:.*held=StoreImpl\.sender-slot|floor"), S.cb1_callbacks_hold_no_reentrant_lock),
-        "explanation": "Static decision: the dispatch queue is bounded(capacity) with the configured value unmodified (CH5) and >= 1 (B1); the BlockOnFull arm consists of exactly one unbounded blocking send (CH1,CH2) executed synchronously by the caller (Q5); nothing but the consumer removes items (Q2). Waiting/wake-up timing is crossbeam's (trusted). Producers enqueue under the sender lock (Q3) and the reducer thread never needs that lock (L2 on the sender slot).",
+                   r(DL.l2_wait_for, only=r"consumer-needs:.*held=StoreImpl\.sender-slot|floor"), S.cb1_callbacks_hold_no_reentrant_lock,
+                   r(T.st3_loop_exits, only=r"exits-only-on-exit-or-disconnect|none-means-disconnected|count:|floor")),
+        "explanation": "Static decision: the dispatch queue is bounded(capacity) with the configured value unmodified (CH5) and >= 1 (B1); the BlockOnFull arm consists of exactly one unbounded blocking send (CH1,CH2) executed synchronously by the caller (Q5); nothing but the consumer removes items (Q2). Waiting/wake-up timing is crossbeam's (trusted). Producers enqueue under the sender lock (Q3) and the reducer thread never needs that lock (L2 on the sender slot). The consumer keeps taking items until the Exit marker or disconnection (ST3): a blocked producer is always woken, an accepted action is not left behind by a loop that gave up.",
         "not_decided": ["'resumes as soon as' / eventual progress (liveness of crossbeam)", "the capacity bound itself is crossbeam's guarantee"],
     },
     "C06": {
         "rules": R(r(_ch1_drop, name="CH1"), C.ch0_never_disconnected, C.ch2_result_tells_enqueued, C.ch3_drop_accounting, C.ch4_retry_identity,
-                   r(Q.q3_enqueue_under_sender_lock, drop=r":StoreImpl::close$"), r(C.dr1_result_mapping, only=r"result-maps-Err|result-ignored|one-enqueue-attempt|floor"),
+                   Q.q3_enqueue_under_sender_lock, r(Q.q4_close, only=r"exit-after-take|take-under-lock|floor"), r(C.dr1_result_mapping, only=r"result-maps-Err|result-ignored|one-enqueue-attempt|floor"),
                    r(ME.me7_monotone, only=r"action_dropped"), r(C.ch5_capacity, only=r"capacity-(unmodified|modified|passed-through|from-field):|only-bounded|count:|floor"),
                    r(B.bu1_write_sets, only=r":policy$|floor"), r(B.bu3_pass_through, only=r"policy|floor"), C.ch6_immutable_config),
-        "explanation": "Static decision by exhaustive path enumeration of the send wrapper: drop arms contain only non-blocking queue operations (CH1); Ok iff enqueued (CH2); each popped/rejected action is counted by exactly one action_dropped call (CH3; the counter is one fetch_add, ME7); DropOldest pops the head only on Full and re-sends the bounced item (CH4) with producers serialised by the sender lock (Q3); Dispatcher::dispatch maps Err to Err (DR1). The queue has the configured capacity (CH5), the configured policy reaches it (BU1,BU3), the DropLatest arm removes nothing from the queue (CH1).",
+        "explanation": "Static decision by exhaustive path enumeration of the send wrapper: drop arms contain only non-blocking queue operations (CH1); Ok iff enqueued (CH2); each popped/rejected action is counted by exactly one action_dropped call (CH3; the counter is one fetch_add, ME7); DropOldest pops the head only on Full and re-sends the bounced item (CH4) with producers serialised by the sender lock (Q3), and close() empties the slot before Exit is enqueued so that no Ok dispatch lands behind Exit, where it would be neither taken nor counted (Q3 on close, Q4); Dispatcher::dispatch maps Err to Err (DR1). The queue has the configured capacity (CH5), the configured policy reaches it (BU1,BU3), the DropLatest arm removes nothing from the queue (CH1).",
         "not_decided": ["which action a concurrent consumer makes the victim (left open by the statement)"],
         "exhaustive": True,
     },
@@ -222,8 +223,9 @@ PROPS = {
     },
     "C09": {
         "rules": R(r(DL.lk0_blocking_acquisitions, only=r"StoreImpl\\.subscriber-list|ChanneledWrapper|all-acquisitions|floor"), r(S.su1_mutators, drop=r"append:|floor:push"), S.su2_unsubscribe, S.su3_shutdown_release, S.su5_release_only_on_reducer_thread, S.su6_snapshot_right_before_delivery, S.su4_delivery_atomic_with_membership,
-                   S.lc1_unsubscribe_sites, S.lc3_release_under_list_lock, r(X.ch_channeled_release, name="R2"), r(PI3_NOTIFY, name="PI3")),
-        "explanation": "Static decision: unsubscribe removes exactly the identical element of its own store's list under the list lock and releases it once (SU1,SU2); whatever is still listed at shutdown is released once and the list cleared in the same critical section on every path to the end of the reducer thread (SU3); no third release path (LC1); every listed element is visited on each notifying pass (PI3); channeled release is idempotent (R2). Delivery atomic with membership (SU4) is a known finding. Releases run under the list lock in context (LC3), the snapshot is taken right before delivery (SU6), the shutdown release survives a poisoned list lock (SU3).",
+                   S.lc1_unsubscribe_sites, S.lc3_release_under_list_lock, r(X.ch_channeled_release, name="R2"), r(PI3_NOTIFY, name="PI3"),
+                   r(Q.q4_close, only=r"close-empties-slot|open-store-emptied-on-every-path|floor")),
+        "explanation": "Static decision: unsubscribe removes exactly the identical element of its own store's list under the list lock and releases it once (SU1,SU2); whatever is still listed at shutdown is released once and the list cleared in the same critical section on every path to the end of the reducer thread (SU3); no third release path (LC1); every listed element is visited on each notifying pass (PI3); channeled release is idempotent (R2). Delivery atomic with membership (SU4) is a known finding. Releases run under the list lock in context (LC3), the snapshot is taken right before delivery (SU6), the shutdown release survives a poisoned list lock (SU3). close() empties the sender slot on every path that finds the store open, so the reducer thread reaches its shutdown release through Exit or disconnection (Q4).",
         "not_decided": [],
     },
     "C10": {
@@ -244,12 +246,12 @@ PROPS = {
     },
     "C12": {
         "rules": R(r(DL.lk0_blocking_acquisitions, only=r"StoreImpl\\.middleware-list|all-acquisitions|floor"), r(P.pi6_action_identity, only=r"HOOK"), M.mw_table, M.mw5_hooks_on_every_action, P.mw1_hook_state_args,
-                   r(E.e2_drain, only=r"MW3:|drain-until-empty|variant-covered|count:"), E.e7_vector_untouched_between_hooks_and_drain,
+                   r(E.e2_drain, only=r"MW3:|drain-until-empty|variant-covered|effect-phase-on-every-pass|count:"), E.e7_vector_untouched_between_hooks_and_drain,
                    r(P.s1_single_writer, only=r"writers of the state cell|writer-is-reducer-thread|no-other-mutable-access"),
                    r(P.pi2_phase_order, only=r"order:(HOOK:before_reduce<REDUCE|REDUCE<HOOK:before_effect|HOOK:before_effect<HANDOVER|HOOK:before_dispatch<NOTIFY)"),
                    r(S.rg1_registration_order, only=r"middleware"), r(P.pi3_full_forward_iteration, only=r":HOOK:", name="PI3"),
                    r(E.e3_never_inline, only=r"job-runs-its-payload|floor")),
-        "explanation": "Static decision by exhaustive path enumeration of one iteration of each of the three hook loops: 3 hooks x {Continue, Done, Break, Err} have exactly the documented control flow, flag writes and on_error calls (MW), flags start true and guard their phase (MW2), hook arguments are the documented states and action (MW1,PI6), the new state is written once, independent of the verdicts and before before_dispatch (S1,PI5,PI2), and the drained effects vector is the one the hooks saw, untouched by the store (MW3,E2). Hooks are consulted in registration order over the list read under its lock (RG1,PI3); jobs run the effects a middleware left (E3).",
+        "explanation": "Static decision by exhaustive path enumeration of one iteration of each of the three hook loops: 3 hooks x {Continue, Done, Break, Err} have exactly the documented control flow, flag writes and on_error calls (MW), flags start true and guard their phase (MW2), hook arguments are the documented states and action (MW1,PI6), the new state is written once, independent of the verdicts and before before_dispatch (S1,PI5,PI2), and the drained effects vector is the one the hooks saw, untouched by the store, and the hand-over loop (or a look at the vector made after the hooks) is reached on every pass, so effects a middleware left or added are run (MW3,E2). Hooks are consulted in registration order over the list read under its lock (RG1,PI3); jobs run the effects a middleware left (E3).",
         "not_decided": ["whether a vetoed action still notifies (unspecified)"],
         "exhaustive": True,
     },
@@ -257,9 +259,9 @@ PROPS = {
         "rules": R(r(DL.lk0_blocking_acquisitions, only=r"try-lock-unwrapped|all-acquisitions|floor"), DL.l1_lock_order, DL.l2_wait_for, E.e6_reducer_never_enqueues,
                    r(T.st1_stop_is_close_plus_join, only=r"closes-first|floor"), Q.q4_close, T.st3_loop_exits,
                    r(S.cb1_callbacks_hold_no_reentrant_lock, only=r"no-state-lock|floor"),
-                   r(C.ch1_arm_purity, only=r"drop-arm-never-blocks|paths-complete|arm-present|path-without-policy"), r(X.it_iterator, only=r"feeder-forwards-once:on_unsubscribe"),
+                   r(C.ch1_arm_purity, only=r"drop-arm-never-blocks|paths-complete|arm-present|path-without-policy"), r(X.it_iterator, only=r"feeder-forwards-once:on_unsubscribe|iter-is-capacity-1-blocking"),
                    r(S.su3_shutdown_release, only=r"every-exit-releases|floor:clear")),
-        "explanation": "Static deadlock analysis on context-sensitive inlined call graphs rooted at every entry point of every thread role (client API, reducer thread, pool jobs, channeled thread, iterator consumer), with class-hierarchy resolution of dyn calls into the crate's impls and the property's own model of user callbacks: the lock-order graph is acyclic without self edges (L1); no blocking send/recv/join is performed while holding a lock the unblocking party takes, no role blocks on a channel only it consumes, joined threads are disconnected first (L2, E6); the thread stop() joins is guaranteed its Exit: stop() closes first, close() enqueues Exit under a blocking lock on every path, the loop leaves on Exit (ST1,Q4,ST3). Premises about the leaf wrapper and the joined threads: drop arms never block, the blocking arm is one blocking send (CH1), stop() closes first, close() enqueues Exit on every path and the loop leaves on it (ST1,Q4,ST3), the iterator is released by a blocking Exit send (IT2), callbacks never run under the state lock (CB1).",
+        "explanation": "Static deadlock analysis on context-sensitive inlined call graphs rooted at every entry point of every thread role (client API, reducer thread, pool jobs, channeled thread, iterator consumer), with class-hierarchy resolution of dyn calls into the crate's impls and the property's own model of user callbacks: the lock-order graph is acyclic without self edges (L1); no blocking send/recv/join is performed while holding a lock the unblocking party takes, no role blocks on a channel only it consumes, joined threads are disconnected first (L2, E6); the thread stop() joins is guaranteed its Exit: stop() closes first, close() enqueues Exit under a blocking lock on every path, the loop leaves on Exit (ST1,Q4,ST3). Premises about the leaf wrapper and the joined threads: drop arms never block, the blocking arm is one blocking send (CH1), stop() closes first, close() enqueues Exit on every path and the loop leaves on it (ST1,Q4,ST3), the iterator is released by a blocking Exit send into a channel with a buffer slot (IT2, IT1: with a rendezvous channel the release under the list lock would wait for a consumer that may never call next()), callbacks never run under the state lock (CB1).",
         "not_decided": ["progress inside crossbeam/rusty_pool/std", "a client thread playing two roles itself", "the 3 s timeout masking a hang"],
     },
     "C14": {
@@ -268,7 +270,7 @@ PROPS = {
                    S.lc3_release_under_list_lock,
                    r(_ch1_block, name="CH1"), r(_ch2_block, name="CH2"), r(PI3_NOTIFY, name="PI3"),
                    r(P.pi6_action_identity, only=r"NOTIFY"),
-                   r(S.su2_unsubscribe, only=r"compares-element-with-own-subscriber|identity-test|removes-exactly-the-identical-element|on_unsubscribe-iff-removed|floor"),
+                   r(S.su2_unsubscribe, only=r"compares-element-with-own-subscriber|identity-test|removes-exactly-the-identical-element|on_unsubscribe-iff-removed|every-path-removes|waits-for-the-list-lock|retain-under-list-lock|floor"),
                    M.n4_notify_phase_not_bypassed, r(S.cb1_callbacks_hold_no_reentrant_lock, only=r"no-list-lock-in-on_notify|floor")),
         "explanation": "Static decision: iter() registers a direct subscriber that forwards each notification once into a capacity-1 blocking (lossless) channel (IT1,IT2,CH1,CH2) fed by the ordinary notify phase (N2,N3,PI3,PI6); Exit is sent by the shutdown release, which every path to the end of the reducer thread passes after the last notification (SU3); next() passes pairs through and is fused, drop detaches (IT3,IT4; exhaustive). The handle removes and releases exactly its own subscriber, once (SU2,LC3); the subscriber loop is not bypassed (N4).",
         "not_decided": ["blocking behaviour of dropping an iterator with an unread item (C13's finding)", "timing"],
@@ -281,8 +283,10 @@ PROPS = {
         "not_decided": ["as C04"],
     },
     "C16": {
-        "rules": R(r(DL.lk0_blocking_acquisitions, only=r"SelectorSubscriber|all-acquisitions|floor"), X.se_selector, X.se5_last_value_single_writer, r(PI3_NOTIFY, name="PI3"), P.n2_guard, M.n4_notify_phase_not_bypassed),
-        "explanation": "Decided completely (modulo PartialEq being the user's equality) by exhaustive path enumeration of SelectorSubscriber::on_notify: select once (SE1); first/changed => one on_change(selected, action) then store; equal => nothing (SE2); all under the last_value lock (SE3); initial None and plain registration (SE4). The ordinary notify phase reaches every listed subscriber on every notifying action (PI3,N2,N4).",
+        "rules": R(r(DL.lk0_blocking_acquisitions, only=r"SelectorSubscriber|all-acquisitions|floor"), X.se_selector, X.se5_last_value_single_writer, r(PI3_NOTIFY, name="PI3"), P.n2_guard, M.n4_notify_phase_not_bypassed,
+                   r(S.su1_mutators, drop=r"removal:clear|floor:clear"),
+                   r(S.su2_unsubscribe, only=r"compares-element-with-own-subscriber|identity-test|removes-exactly-the-identical-element|retain-under-list-lock|floor")),
+        "explanation": "Decided completely (modulo PartialEq being the user's equality) by exhaustive path enumeration of SelectorSubscriber::on_notify: select once (SE1); first/changed => one on_change(selected, action) then store; equal => nothing (SE2); all under the last_value lock (SE3); initial None and plain registration (SE4). The ordinary notify phase reaches every listed subscriber on every notifying action (PI3,N2,N4), and a selector subscription leaves the list only through its own handle: other handles remove exactly their identical element (SU1,SU2).",
         "not_decided": [],
         "exhaustive": True,
     },
@@ -295,8 +299,9 @@ PROPS = {
     },
     "C18": {
         "rules": R(ME.me1_received, ME.me2_drop_feeders, r(_ch1_block, name="CH1"), C.ch3_drop_accounting, ME.me3_reduced, ME.me4_effect_issued, M.mw4_counter, ME.me6_errors,
-                   ME.me7_monotone, ME.me8_snapshot, ME.me9_one_metrics_object, E.e1_collect),
-        "explanation": "Static pairing rules: one counter call per event at the place that makes the balance equations hold (ME1,CH3,ME3,ME4,MW4,ME6,E1), counters only ever fetch_add'ed, each method its own counter (ME7), snapshot fields map 1:1 (ME8), one metrics object per store shared with the dispatch queue only (ME9, ME2). ME2 (a second feeder of action_dropped) is a known finding.",
+                   ME.me7_monotone, ME.me8_snapshot, ME.me9_one_metrics_object, E.e1_collect,
+                   r(Q.q3_enqueue_under_sender_lock, only=r"send-under-lock|sender-lock-exclusive|floor"), r(M.mw_table, only=r"flags:before_reduce|arm-present:before_reduce|count:before_reduce")),
+        "explanation": "Static pairing rules: one counter call per event at the place that makes the balance equations hold (ME1,CH3,ME3,ME4,MW4,ME6,E1), counters only ever fetch_add'ed, each method its own counter (ME7), snapshot fields map 1:1 (ME8), one metrics object per store shared with the dispatch queue only (ME9, ME2). ME2 (a second feeder of action_dropped) is a known finding. The drop accounting of the send wrapper presupposes producers serialised by the exclusively held sender lock (Q3); only a before_reduce DoneAction counts as a veto that keeps an action from being reduced and counted (MW flags).",
         "not_decided": ["time-valued metrics", "remaining_queue*"],
     },
     "C19": {
